@@ -636,3 +636,42 @@ def _rules_scan(mods):
 for _pid, _mods in (("C06", ("model", "parameters")), ("C13", ("programs",)), ("C15", ("optimization", "calibration")), ("C20", ("plotting", "results"))):
     _prev = EXTRA_CHECKS.get(_pid)
     EXTRA_CHECKS[_pid] = (lambda prev, scan: (lambda tier="quick", seed=0: (prev(tier, seed) if prev else []) + scan(tier, seed)))(_prev, _rules_scan(_mods))
+
+
+# ---- C16 / C18: entries of one look-up table are built with the same keys wherever they are built (the writers / readers index them)
+def _replay_table_entries():
+    import logging
+    import warnings
+
+    import atomica as at
+
+    warnings.filterwarnings("ignore")
+    at.logger.setLevel(logging.ERROR)
+    P = at.demo("udt", do_run=False)
+    bad = []
+    for op in ("add_comp", "add_par", "add_pop"):
+        ps = P.progsets[0].copy()
+        try:
+            getattr(ps, op)("newentry", "A new entry")
+            ps.to_spreadsheet()
+        except Exception as e:  # noqa
+            bad.append("after ProgramSet.%s the program book cannot be written: %s: %s" % (op, type(e).__name__, e))
+    D = P.data
+    try:
+        D2 = at.ProjectData.from_spreadsheet(D.to_spreadsheet(), P.framework)
+        D2.add_pop("newpop", "A new population")
+        D2.to_spreadsheet()
+    except Exception as e:  # noqa
+        bad.append("after ProjectData.add_pop the databook cannot be written: %s: %s" % (type(e).__name__, e))
+    return dict(verdict="violates" if bad else "holds", detail="; ".join(bad) or "books are written after each add operation", prestate=dict(project="udt"))
+
+
+def _c16_tables(tier="quick", seed=0):
+    out = []
+    for mod in ("programs", "data", "parameters", "framework", "project"):
+        out += flow.table_entries_have_same_keys(mod)
+    return _attach(out, "entries-of-", _replay_table_entries)
+
+
+_c16_before_tables = EXTRA_CHECKS["C16"]
+EXTRA_CHECKS["C16"] = (lambda tier="quick", seed=0: _c16_before_tables(tier, seed) + _c16_tables(tier, seed))
